@@ -391,7 +391,7 @@ D(g, X, p, c, env) ==
               IF ~rb.ok THEN Fail(r.fl \cup rb.fl)
               ELSE R(TRUE, rb.end, FoldR(g[4], r.val, rb.val), r.em \o rb.em, r.fl \cup rb.fl)
     [] o = "pratt" -> DPratt(g, X, p, c, env, 0)
-    [] o = "rec" -> D(g[2], X, p, c, <<g[2]>> \o env)
+    [] o \in {"rec", "recd"} -> D(g[2], X, p, c, <<g[2]>> \o env)     \* recd: Recursive::declare / define
     [] o = "ref" -> D(env[g[2]], X, p, c, SubSeq(env, g[2], Len(env)))
     [] o = "let" -> D(g[3], X, p, c, <<g[2]>> \o env)            \* sharing a parser value changes nothing
     [] o = "var" -> D(env[g[2]], X, p, c, SubSeq(env, g[2] + 1, Len(env)))
